@@ -255,7 +255,7 @@ def main():
                     hard.append((x, it[1] + " (reproduced on re-play)"))
             bad += hard
         for x, err in crashes:
-            bad.append((x, "sanitizer abort / crash of the real service: " + " ".join(l.strip() for l in err.splitlines() if "ERROR" in l or "runtime error" in l)[:300], err))
+            bad.append((x, crash_reason(err), err))
         if not c.replay_path:
             bad = confirm_soft(c, hbin, model, bad, judge)
         for item in pick_diverse(bad, 20):
